@@ -55,9 +55,25 @@ carry their own obligations, so nothing the un-split `run` was checked for is lo
 and `undeploy` write `_scheduled_jobs` / `_jobs_cache` (the remaining `run` may not); R4 every link awaits the helper
 and returns its result unchanged on every path (`id:forwarded:*`); R5 the helper receives a wrapping location
 (`unwrap:<caller>-><helper>`).
-Not decided: a *partial* split (submission + registration in one function, the wait loop / result collection in
-another) -- the order and atomicity clauses of R1 are CFG relations of one function; such a tree is refused
-(ANALYSIS-ERROR), not reported.
+A *partial* split (B22-3: registration, cache clear, wait loop and pop moved into `_wait_for_job`, which run awaits between
+the submission and the result collection; or the other way round: a helper submits and registers, run waits).  The order
+and atomicity clauses of R1 are CFG relations between constructs that then live in two functions, so they are decided
+on the code that runs: the body of every private helper that touches the bookkeeping (`_scheduled_jobs`, `_jobs_cache`,
+its lock, `_get_running_jobs`, `_get_output`, `_get_returncode`; `_run_batch_command` for the reverse split) is spliced
+into a private copy of the caller at the call statement (at most 3 bodies, helpers of helpers included) and R1/R4, the
+lock scopes of R2 and the location def-use of R5 look at that function.  Spliced are only calls for which this is exact:
+`[T =|return] [await] self._helper(...)` as a whole statement, of a plain (undecorated, concrete, defined once in the
+class tree) method of QueueManagerConnector, awaited iff it is a coroutine (`await coro()` runs the body in the caller's
+task and is not a suspension point by itself); arguments are bound left to right before the body (a never rebound
+parameter that receives a plain name *is* that name, the helper's other locals are renamed apart); `return` only where
+it ends the helper (last statement, last `if`/`with`, or a guard clause whose other arm takes the rest), no nested
+def / generator / global.  Own obligations: R3 the helper is referenced nowhere but at the spliced call
+(`part-only-in-run:<helper>`: any other user would run the registration / wait / removal outside the decided order),
+and only then are its writes of the bookkeeping allowed.  Findings are keyed on the function the bodies were spliced
+into and say so.
+Not decided: a helper holding a part of the batch branch that is *not* called in such a shape (started as a task, used
+inside a larger expression, returning from inside a loop / try): it is not spliced, the rules then see the bare call --
+R3 reports its writes of the bookkeeping, or the tree is refused (ANALYSIS-ERROR) when an anchor (the poll) is missing.
 
 Left out (DESIGN C27.R2 "key_maker=_const_key_maker" and "queries self._scheduled_jobs.keys()"): neither is a
 necessary condition.  `clear()` empties the cache whatever the keys are, and a listing that is *not* restricted
@@ -84,7 +100,8 @@ JOBS = "_scheduled_jobs"
 META = {
     "explanation": (
         "CFG rules on the batch branch of QueueManagerConnector.run -- in run itself or in the private helper it was split into, found through "
-        "resolved self-calls (bound 2), whose call chain must await and return the helper's result unchanged -- (dominance and must-pass-through between submission, registration, "
+        "resolved self-calls (bound 2), whose call chain must await and return the helper's result unchanged; bodies of private helpers "
+        "holding a part of the batch branch are spliced in at their (statement-level, awaited) call, bound 3 -- (dominance and must-pass-through between submission, registration, "
         "cache invalidation, polling, loop exit test, pop and return; lexical lock scope of the invalidation and of every "
         "poll), decorator facts of every concrete _get_running_jobs found through the class table, whole-program call "
         "sites and writers of _get_running_jobs/_scheduled_jobs/_jobs_cache, def-use of the job id, and def-use counting of "
@@ -148,6 +165,17 @@ def _submits(p, fn) -> list:
     return [n for n in _by_name(fn.cfg, "_run_batch_command") if any(call_is(p, fn, c, f"{QMC}._run_batch_command") for c in n.calls())]
 
 
+def _helper_def(p, me: str, c: ast.Call):
+    """the plain, private, concrete method of QueueManagerConnector itself that `me._name(...)` certainly runs (defined
+    once in the class tree -- no override in a subclass --, undecorated, not abstract); None otherwise"""
+    if not (isinstance(c.func, ast.Attribute) and dotted(c.func.value) == me and c.func.attr.startswith("_") and not c.func.attr.startswith("__")):
+        return None
+    defs = p.overrides(QMC, c.func.attr)
+    if len(defs) != 1 or defs[0].cls is None or defs[0].cls.qualname != QMC or defs[0].is_abstract or defs[0].decorators:
+        return None
+    return defs[0]
+
+
 def _self_helper_calls(p, fn) -> list:
     """(call, callee) for every `self._name(...)` in fn that resolves to exactly one plain, private, concrete method
     defined in QueueManagerConnector itself (no override in a subclass, no decorator): the only callees whose body is
@@ -156,12 +184,9 @@ def _self_helper_calls(p, fn) -> list:
         return []
     me, out = fn.params[0], []
     for c in fn.calls():
-        if not (isinstance(c.func, ast.Attribute) and dotted(c.func.value) == me and c.func.attr.startswith("_") and not c.func.attr.startswith("__")):
-            continue
-        defs = p.overrides(QMC, c.func.attr)
-        if len(defs) != 1 or defs[0].cls is None or defs[0].cls.qualname != QMC or defs[0].is_abstract or defs[0].decorators:
-            continue
-        out.append((c, defs[0]))
+        callee = _helper_def(p, me, c)
+        if callee is not None:
+            out.append((c, callee))
     return out
 
 
@@ -180,6 +205,287 @@ def _batch_chains(p, fn, depth: int, seen: frozenset) -> list:
     return out
 
 
+# --------------------------------------------------------------------------- partial splits: helper bodies spliced in
+#
+# B22-3 moved a *part* of the batch branch (registration, cache invalidation, wait loop, pop) into a private coroutine
+# that run awaits between the submission and the result collection.  The clauses of R1 are CFG relations (dominance,
+# must-pass-through, suspension windows) between constructs that now live in two functions.  They are decided on the
+# code that runs: the body of the helper is spliced into a private copy of the caller at the call statement (bounded),
+# and every rule that looked at `run` looks at that function instead.  Splicing is exact for the shapes accepted below
+# (directly awaited call of a plain coroutine: `await coro()` runs the body in the caller's task and does not yield by
+# itself; arguments are bound left to right before the body; `return` only where it ends the body), everything else is
+# left alone -- the rules then see the un-inlined call and report / refuse as before.
+
+_INLINE_CALLS = 3  # helper bodies spliced into the batch function
+_BATCH_ATTRS = frozenset({JOBS, "_jobs_cache", "_jobs_cache_lock", "_get_running_jobs", "_get_output", "_get_returncode"})
+_NESTED = (ast.FunctionDef, ast.AsyncFunctionDef, ast.ClassDef)
+
+
+def _mentions_batch(p, fn, depth: int, submit: bool) -> bool:
+    """fn (or a private helper it calls, bound `depth`) touches the bookkeeping of the batch branch"""
+    for n in fn.body_nodes():
+        if isinstance(n, ast.Attribute) and (n.attr in _BATCH_ATTRS or (submit and n.attr == "_run_batch_command")):
+            return True
+    return depth > 0 and any(_mentions_batch(p, callee, depth - 1, submit) for _, callee in _self_helper_calls(p, fn))
+
+
+def _own_walk(root):
+    """nodes of a function body (root: def node or statement) without nested defs / classes"""
+    stack = [root]
+    while stack:
+        n = stack.pop()
+        yield n
+        for c in ast.iter_child_nodes(n):
+            if not isinstance(c, _NESTED):
+                stack.append(c)
+
+
+def _stmt_lists(root):
+    """every statement list (body / orelse / finalbody / handler and case bodies) of a def, nested defs excluded"""
+    for n in _own_walk(root):
+        for name in ("body", "orelse", "finalbody"):
+            lst = getattr(n, name, None)
+            if isinstance(lst, list) and lst and isinstance(lst[0], ast.stmt):
+                yield lst
+
+
+def _call_stmt(stmt):
+    """(call, form, awaited) when stmt is `[await] x.h(...)`, `T = [await] x.h(...)` or `return [await] x.h(...)`"""
+    if isinstance(stmt, ast.Expr):
+        v, form = stmt.value, "expr"
+    elif isinstance(stmt, ast.Assign):
+        v, form = stmt.value, "assign"
+    elif isinstance(stmt, ast.AnnAssign) and stmt.value is not None:
+        v, form = stmt.value, "assign"
+    elif isinstance(stmt, ast.Return) and stmt.value is not None:
+        v, form = stmt.value, "return"
+    else:
+        return None
+    awaited = isinstance(v, ast.Await)
+    if awaited:
+        v = v.value
+    return (v, form, awaited) if isinstance(v, ast.Call) else None
+
+
+def _has_return(stmts) -> bool:
+    return any(isinstance(x, ast.Return) for s in stmts for x in _own_walk(s))
+
+
+def _always_leaves(stmts) -> bool:
+    """the statement list never falls through (ends in return / raise on every branch)"""
+    if not stmts:
+        return False
+    last = stmts[-1]
+    if isinstance(last, (ast.Return, ast.Raise)):
+        return True
+    if isinstance(last, ast.If):
+        return _always_leaves(last.body) and _always_leaves(last.orelse)
+    return False
+
+
+def _tailify(stmts: list, on_return) -> list | None:
+    """Rewrite a helper body so that it has no `return`: a return that ends the body (directly, in the last `if` /
+    `with` of the body, or in a guard clause whose other arm takes the rest of the body) is replaced by
+    `on_return(value)`; None when a return sits anywhere else (loop, try, ...): not spliced."""
+    out = []
+    for i, s in enumerate(stmts):
+        rest = stmts[i + 1:]
+        if isinstance(s, ast.Return):
+            out.extend(on_return(s))
+            return out  # what follows is dead code
+        if not _has_return([s]):
+            out.append(s)
+            continue
+        if isinstance(s, ast.If):
+            if _always_leaves(s.body):
+                body, orelse = _tailify(s.body, on_return), _tailify(s.orelse + rest, on_return)
+            elif _always_leaves(s.orelse):
+                body, orelse = _tailify(s.body + rest, on_return), _tailify(s.orelse, on_return)
+            elif not rest:
+                body, orelse = _tailify(s.body, on_return), _tailify(s.orelse, on_return)
+            else:
+                return None
+            if body is None or orelse is None:
+                return None
+            s.body, s.orelse = body or [ast.copy_location(ast.Pass(), s)], orelse
+            out.append(s)
+            return out
+        if isinstance(s, (ast.With, ast.AsyncWith)) and not rest:
+            body = _tailify(s.body, on_return)
+            if body is None:
+                return None
+            s.body = body or [ast.copy_location(ast.Pass(), s)]
+            out.append(s)
+            return out
+        return None
+    return out
+
+
+def _pos(n) -> tuple:
+    return (n.lineno, n.col_offset, getattr(n, "end_lineno", None), getattr(n, "end_col_offset", None))
+
+
+class _Splicer:
+    """private copy of one function of queue_manager.py (re-parsed from the module source, so real line numbers and no
+    engine nodes) into which bodies of private helpers are spliced"""
+
+    def __init__(self, p, base):
+        self.p, self.base = p, base
+        tree = ast.parse(base.module.source)
+        self.defs = {(n.name, n.lineno, n.col_offset): n for n in ast.walk(tree) if isinstance(n, (ast.FunctionDef, ast.AsyncFunctionDef))}
+        self.node = self._copy(base)
+        self.me = base.params[0]
+        self.inlined = []  # (callee Func, position of the call, position of `self._helper`, line of the call)
+
+    def _copy(self, fn):
+        import copy
+
+        src = self.defs.get((fn.node.name, fn.node.lineno, fn.node.col_offset))
+        return copy.deepcopy(src) if src is not None else None  # own, parent-less nodes
+
+    def candidates(self, submit: bool):
+        for lst in _stmt_lists(self.node):
+            for i, st in enumerate(lst):
+                cs = _call_stmt(st)
+                if cs is None:
+                    continue
+                callee = _helper_def(self.p, self.me, cs[0])
+                if callee is not None and callee.qualname != self.base.qualname and _mentions_batch(self.p, callee, _HELPER_BOUND, submit):
+                    yield lst, i, st, cs, callee
+
+    def splice_one(self, submit: bool) -> bool:
+        for lst, i, st, (call, form, awaited), callee in self.candidates(submit):
+            new = self._expand(st, call, form, awaited, callee)
+            if new is not None:
+                self.inlined.append((callee, _pos(call), _pos(call.func), call.lineno))
+                lst[i:i + 1] = new
+                return True
+        return False
+
+    def _expand(self, st, call, form, awaited, callee) -> list | None:
+        h = self._copy(callee)
+        a = h.args if h is not None else None
+        if h is None or callee.is_async != awaited or a.vararg or a.kwarg or not (a.posonlyargs + a.args):
+            return None
+        if any(isinstance(x, ast.Starred) for x in call.args) or any(k.arg is None for k in call.keywords):
+            return None
+        body = h.body
+        if body and isinstance(body[0], ast.Expr) and isinstance(body[0].value, ast.Constant) and isinstance(body[0].value.value, str):
+            body = body[1:]  # docstring
+        inner = [x for s in body for x in _own_walk(s)]
+        if any(isinstance(x, (ast.Global, ast.Nonlocal, ast.Yield, ast.YieldFrom, ast.Import, ast.ImportFrom, ast.Match, *_NESTED)) for x in inner):
+            return None
+        # ---- bind the arguments (receiver first, positional, keywords; constant defaults)
+        pos = [x.arg for x in a.posonlyargs + a.args]
+        params = pos + [x.arg for x in a.kwonlyargs]
+        bound: dict[str, ast.AST] = {}
+        if len(call.args) > len(pos) - 1:
+            return None
+        for name, arg in zip(pos[1:], call.args):
+            bound[name] = arg
+        for k in call.keywords:
+            if k.arg in bound or k.arg not in params[1:] or k.arg in [x.arg for x in a.posonlyargs]:
+                return None
+            bound[k.arg] = k.value
+        defaults = dict(zip(reversed(pos), reversed(a.defaults)))
+        defaults.update({k.arg: d for k, d in zip(a.kwonlyargs, a.kw_defaults) if d is not None})
+        late = []
+        for name in params[1:]:
+            if name not in bound:
+                if not isinstance(defaults.get(name), ast.Constant):
+                    return None
+                late.append(name)
+        # ---- names: locals of the helper are renamed apart from every name of the caller; a parameter that is never
+        # rebound and receives a plain name *is* that name
+        stored = {x.id for x in inner if isinstance(x, ast.Name) and isinstance(x.ctx, (ast.Store, ast.Del))}
+        stored |= {x.name for x in inner if isinstance(x, ast.ExceptHandler) and x.name}
+        local = set(params) | stored
+        free = {x.id for x in inner if isinstance(x, ast.Name)} - local
+        caller_all = {x.id for x in _own_walk(self.node) if isinstance(x, ast.Name)} | {x.arg for x in ast.walk(self.node.args) if isinstance(x, ast.arg)}
+        caller_local = ({x.id for x in _own_walk(self.node) if isinstance(x, ast.Name) and isinstance(x.ctx, (ast.Store, ast.Del))}
+                        | {x.arg for x in ast.walk(self.node.args) if isinstance(x, ast.arg)}
+                        | {x.name for x in _own_walk(self.node) if isinstance(x, ast.ExceptHandler) and x.name})
+        if free & caller_local:
+            return None  # a global of the helper would be captured by a local of the caller
+        if any(isinstance(x, ast.Lambda) and ({y.arg for y in ast.walk(x.args) if isinstance(y, ast.arg)} & local) for x in inner):
+            return None
+        used = caller_all | caller_local | free
+        ren: dict[str, str] = {params[0]: self.me}
+        prologue_names = {}
+        for name in sorted(local - {params[0]}):
+            arg = bound.get(name)
+            if arg is not None and isinstance(arg, ast.Name) and name not in stored:
+                ren[name] = arg.id
+                continue
+            new = name
+            while new in used:
+                new = f"{new}__{callee.name.strip('_')}"
+            used.add(new)
+            ren[name] = new
+            if name in params:
+                prologue_names[name] = new
+        for x in inner:
+            if isinstance(x, ast.Name) and x.id in ren:
+                x.id = ren[x.id]
+            elif isinstance(x, ast.ExceptHandler) and x.name in ren:
+                x.name = ren[x.name]
+        prologue = []
+        for name, arg in list(bound.items()) + [(n, defaults[n]) for n in late]:
+            if name in prologue_names:
+                prologue.append(ast.copy_location(ast.Assign(targets=[ast.copy_location(ast.Name(id=prologue_names[name], ctx=ast.Store()), st)], value=arg), st))
+            elif not isinstance(arg, (ast.Name, ast.Constant)):
+                prologue.append(ast.copy_location(ast.Expr(value=arg), st))  # unused parameter: the argument is still evaluated
+        # ---- returns
+        import copy
+
+        if form == "return":
+            if not _always_leaves(body):
+                body = body + [ast.copy_location(ast.Return(value=ast.copy_location(ast.Constant(value=None), st)), body[-1] if body else st)]
+        else:
+            def on_return(r):
+                if form == "expr":
+                    return [ast.copy_location(ast.Expr(value=r.value), r)] if r.value is not None and not isinstance(r.value, (ast.Name, ast.Constant)) else []
+                tpl = copy.deepcopy(st)  # own, parent-less nodes
+                tpl.value = r.value if r.value is not None else ast.copy_location(ast.Constant(value=None), r)
+                return [ast.copy_location(tpl, r)]
+
+            if form == "assign" and not _always_leaves(body):
+                body = body + [ast.copy_location(ast.Return(value=None), body[-1] if body else st)]
+            body = _tailify(body, on_return)
+            if body is None:
+                return None
+        out = prologue + body
+        return out or [ast.copy_location(ast.Pass(), st)]
+
+    def func(self):
+        from ..model import Func, set_parents
+
+        ast.fix_missing_locations(self.node)
+        set_parents(self.node)
+        self.node._parent = getattr(self.base.node, "_parent", None)
+        return Func(self.base.qualname, self.node, self.base.module, self.base.cls, self.base.outer)
+
+
+def _inline_helpers(p, base, submit: bool = False):
+    """(function to analyse, [(helper Func, call position, `self._helper` position, line)]): base itself when no
+    private helper holding a part of the batch branch is called in a spliceable way"""
+    if not base.params or not any(_mentions_batch(p, callee, _HELPER_BOUND, submit) for _, callee in _self_helper_calls(p, base)):
+        return base, []
+    sp = _Splicer(p, base)
+    if sp.node is None:
+        return base, []
+    for _ in range(_INLINE_CALLS):
+        if not sp.splice_one(submit):
+            break
+    if not sp.inlined:
+        return base, []
+    return sp.func(), sp.inlined
+
+
+def _polls(p, fn) -> list:
+    return [n for n in _by_name(fn.cfg, "_get_running_jobs") if any(call_is(p, fn, c, f"{QMC}._get_running_jobs") for c in n.calls())]
+
+
 def _run_facts_uncached(ctx):
     p = ctx.prog
     run = p.func(f"{QMC}.run")
@@ -191,11 +497,23 @@ def _run_facts_uncached(ctx):
     ctx.require(len(chains) == 1, "C27: `job_id = await self._run_batch_command(...)` not found in QueueManagerConnector.run"
                                   + (f" nor in a private helper it calls (bound {_HELPER_BOUND})" if not chains else ": several helper routes submit a batch job (shape not interpretable)"))
     chain = chains[0]
-    f = chain[-1][2] if chain else run
+    real = chain[-1][2] if chain else run
+    # a *part* of the batch branch moved into a private coroutine (B22-3: registration .. wait loop .. pop in
+    # `_wait_for_job`, awaited by run between submission and result collection): its body is spliced in at the call
+    f, inlined = _inline_helpers(p, real)
+    if chain and not _polls(p, f):
+        # the split the other way round: the helper submits (and registers), run waits and collects -- decided on run
+        # with the submitting helper spliced in
+        f2, inl2 = _inline_helpers(p, run, submit=True)
+        if inl2 and _submits(p, f2) and _polls(p, f2):
+            f, inlined, chain, real = f2, inl2, [], run
     via = ""
     if chain:
         via = (" [`run` is the batch branch of QueueManagerConnector.run, followed through the resolved call(s) "
                + " -> ".join(f"`{caller.params[0]}.{callee.name}(...)` at L{call.lineno} of {caller.name}" for caller, call, callee in chain) + f" into {f.qualname}]")
+    if inlined:
+        via += (f" [decided on {real.name} with the body of " + ", ".join(f"`{f.params[0]}.{callee.name}(...)` (called at L{line}, {callee.qualname})" for callee, _, _, line in inlined)
+                + " spliced in at the call]")
     g = f.cfg
     me = f.params[0]
     A = _submits(p, f)
@@ -206,12 +524,12 @@ def _run_facts_uncached(ctx):
     jobs = f"{me}.{JOBS}"
     B = [n for n in g.nodes.values() if n.kind == "stmt" and isinstance(n.ast, ast.Assign)
          and any(isinstance(t, ast.Subscript) and dotted(t.value) == jobs for t in n.ast.targets)]
-    D = [n for n in _by_name(g, "_get_running_jobs") if any(call_is(p, f, c, f"{QMC}._get_running_jobs") for c in n.calls())]
+    D = _polls(p, f)
     ctx.require(bool(D), f"C27: {f.name} no longer polls _get_running_jobs")
     # the cache cleared by run
     C = [n for n in g.nodes.values() if any(isinstance(c.func, ast.Attribute) and c.func.attr == "clear" and (dotted(c.func.value) or "").startswith(me + ".")
                                              and "cache" in c.func.value.attr for c in n.calls())]
-    return dict(f=f, g=g, me=me, A=A[0], jid=jid, jobs=jobs, B=B, C=C, D=D, chain=chain, via=via, run=run)
+    return dict(f=f, g=g, me=me, A=A[0], jid=jid, jobs=jobs, B=B, C=C, D=D, chain=chain, via=via, run=run, real=real, inlined=inlined)
 
 
 def _obv(ctx, F):
@@ -282,7 +600,10 @@ def _route(g, path) -> str:
 
 
 def _is_jid(f, e, jid) -> bool:
-    return any(isinstance(o, ast.Name) and o.id == jid for o in [e, *origins(f, e)])
+    """e denotes the submitted job's id: the variable the submission was assigned to, or a local alias of it (`origins`
+    expands an alias down to the awaited submission itself)"""
+    sub = [strip_await(d.value) for d in defs_of(f, jid) if d.kind == "assign" and d.index is None and d.value is not None]
+    return any((isinstance(o, ast.Name) and o.id == jid) or any(o is x for x in sub) for o in [e, *origins(f, e)])
 
 
 # =========================================================================== R1
@@ -691,9 +1012,14 @@ def r2(ctx):
     sites = {}
     family = {f"{QMC}._get_running_jobs"} | {m.qualname for m in impls}
     cands = []
+    spliced = {callee.qualname for callee, _, _, _ in F["inlined"]}
     for fn in p.all_funcs():
         if "_get_running_jobs" not in fn.module.source:
             continue
+        if fn.qualname in spliced:
+            continue  # its body is part of F["f"] (spliced in at the only place it is used, R3): judged there, under the caller's locks too
+        if fn.qualname == F["f"].qualname:
+            fn = F["f"]
         for c in fn.calls():
             if (isinstance(c.func, ast.Attribute) and c.func.attr == "_get_running_jobs") or (isinstance(c.func, ast.Name) and c.func.id == "_get_running_jobs"):
                 cands.append((fn, c))
@@ -787,8 +1113,28 @@ def r3(ctx):
     # writers of the two fields
     # `run` = the function holding the batch branch (run itself, or the helper it was split into: R1 decides the
     # bookkeeping there, so nothing else -- not even the remaining run -- may write it)
-    batch = _run_facts(ctx)["f"]
-    allowed = {f"{QMC}.__init__", batch.qualname, f"{QMC}.undeploy"}
+    F = _run_facts(ctx)
+    batch = F["f"]
+    # helpers whose body was spliced into the batch function hold a part of it: R1 decided their writes in place, provided
+    # the splice site is the only place they are used (any other caller would run the bookkeeping outside the decided order)
+    parts = {callee.qualname: callee for callee, _, _, _ in F["inlined"]}
+    allowed = {f"{QMC}.__init__", batch.qualname, f"{QMC}.undeploy"} | set(parts)
+    spliced_at = {fpos for _, _, fpos, _ in F["inlined"]}
+    for callee in parts.values():
+        stray = []
+        for m in p.modules.values():
+            if callee.name not in m.source:
+                continue
+            for n in ast.walk(m.tree):
+                if isinstance(n, ast.Attribute) and n.attr == callee.name and not (m is callee.module and _pos(n) in spliced_at):
+                    stray.append((m, n))
+                elif isinstance(n, ast.Name) and n.id == callee.name and m is callee.module:
+                    stray.append((m, n))
+        ctx.ob("R3", f"{callee.name} (a part of the batch branch of run) is used only where run awaits it", not stray, func=callee,
+               node=stray[0][1] if stray else callee.node, instance=f"part-only-in-run:{callee.name}",
+               message=(f"{callee.qualname} holds a part of the batch branch of run (it writes / polls the bookkeeping of the queued jobs) but is also referenced at "
+                        + ", ".join(f"{m.relpath}:{n.lineno} `{_norm(getattr(n, '_parent', n))}`" for m, n in stray[:3])
+                        + ": there the registration / wait / removal runs outside the order decided for run") if stray else "")
     mutators = {"pop", "clear", "update", "setdefault", "popitem", "__setitem__", "__delitem__"}
     found = 0
     for fn in p.all_funcs():
@@ -968,6 +1314,12 @@ def r4(ctx):
     rets = [n for n in g.nodes.values() if n.kind == "return" and n.id in g.reach([A.id])]
     for r in rets:
         vals = list(origins(f, r.ast.value)) + [r.ast.value] if r.ast.value is not None else []
+        # ... and the temporaries the returned expression is built from (`return output, returncode`)
+        for _ in range(3):
+            more = [o for v in vals for x in ast.walk(v) if isinstance(x, ast.Name) for o in origins(f, x) if o is not x and all(o is not y for y in vals)]
+            if not more:
+                break
+            vals.extend(more)
         names = {c.func.attr for o in vals for c in ast.walk(o) if isinstance(c, ast.Call) and isinstance(c.func, ast.Attribute)}
         ob("R4", "the batch branch returns the job's return code", "_get_returncode" in names, func=f, node=r.ast, instance="id:returns-code",
                message="run's batch branch no longer returns the exit code obtained from _get_returncode")
@@ -1088,7 +1440,13 @@ def r5(ctx):
     ctx.require(len(family) >= 5, f"C27.R5: only {sorted(family)} sibling methods delegate through super().run (floor 5)")
     # (c) callers inside QueueManagerConnector hand over wrapping locations
     n_sites = 0
+    F = _run_facts(ctx)
+    spliced = {callee.qualname for callee, _, _, _ in F["inlined"]}
     for m in p.classes[QMC].methods.values():
+        if m.qualname in spliced:
+            continue  # a part of the batch branch: its calls are traced in the function it was spliced into (from that function's own location parameter)
+        if m.qualname == F["f"].qualname:
+            m = F["f"]
         mp = _loc_param(p, m)
         for c in m.calls():
             if not (isinstance(c.func, ast.Attribute) and c.func.attr in family and dotted(c.func.value) == m.params[0]):
@@ -1166,6 +1524,23 @@ def _split(delegate: str = _DELEGATE, batch: str = _BATCH, extra: str = "") -> s
     return ("    if job_name:\n" + delegate + "    return " + _SUPER + "\n\n" + extra
             + "async def _run_batch_job" + _HELPER_SIG + ":\n" + _dedent4(batch)).rstrip("\n")
 
+
+# a *part* of the batch branch split off (B22-3): registration .. wait loop .. pop move into `_wait_for_job`, which run
+# awaits between the submission and the result collection
+_WAIT_BODY = _REG + _CLEAR + _LOOP + _POP
+_WAIT_CALL = "        await self._wait_for_job(job_id, location)\n"
+_COLLECT = ("        if stdout == asyncio.subprocess.STDOUT:\n            output = await self._get_output(job_id, location)\n        else:\n            output = None\n"
+            "        returncode = await self._get_returncode(job_id, location)\n        return (output, returncode)\n")
+_WAIT_SIG = "(self, job_id: str, location: ExecutionLocation) -> None"
+
+
+def _partial(call: str = _WAIT_CALL, collect: str = _COLLECT, wait: str = _WAIT_BODY, sig: str = _WAIT_SIG, extra: str = "", head: str = _HEAD, name: str = "_wait_for_job") -> str:
+    return ("    if job_name:\n" + head + call + collect + "    else:\n        return " + _SUPER + "\n\n" + extra
+            + "async def " + name + sig + ":\n" + _dedent4(wait)).rstrip("\n")
+
+
+_SUBMIT = _HEAD.split("        job_id = await self._run_batch_command(")[0]
+_SUBMIT_REST = "        job_id = await self._run_batch_command(" + _HEAD.split("        job_id = await self._run_batch_command(")[1]
 
 _GATHER = "    await asyncio.gather(*(asyncio.create_task(self._remove_jobs(loc_map[location], jobs)) for location, jobs in jobs_map.items()))\n"
 
@@ -1314,4 +1689,43 @@ VARIANTS = [
       _split(batch=_BATCH.replace("await self._get_returncode(job_id, location)", "await self._get_returncode(job_name, location)")), "R4"),
     V("split run, the helper receives an already unwrapped location", FILE, RUN, _RUN_BODY,
       _split(_DELEGATE.replace("location=location", "location=get_inner_location(location)")), "R5"),
+    # ---- a part of the batch branch split off into a private coroutine (B22-3): its body is spliced in at the call
+    V("B22-3: registration, cache clear, wait loop and pop moved into _wait_for_job; result through if/else temporaries", FILE, RUN, _RUN_BODY, _partial(), None),
+    V("partial split, helper with other parameter names (keywords, a default), a docstring, a raising guard clause and a final return", FILE, RUN, _RUN_BODY,
+      _partial(call="        await self._wait_for_job(loc=location, jid=job_id)\n", sig="(self, jid, loc, label='batch')",
+               wait="        'wait until the job left the queue'\n        if jid is None:\n            raise WorkflowExecutionException(f'no {label} job id')\n"
+                    + _WAIT_BODY.replace("job_id", "jid").replace("location", "loc") + "        return\n"), None),
+    V("partial split, wait and result collection in the helper whose result run returns", FILE, RUN, _RUN_BODY,
+      _partial(call="        return await self._wait_for_job(job_id, location, stdout)\n", collect="", sig="(self, job_id, location, stdout)",
+               wait=_WAIT_BODY + "        return " + _RES + "\n"), None),
+    V("partial split, wait and result collection in the helper, result through a temporary of run", FILE, RUN, _RUN_BODY,
+      _partial(call="        result = await self._wait_for_job(job_id, location, stdout)\n", collect="        return result\n", sig="(self, job_id, location, stdout)",
+               wait=_WAIT_BODY + "        return " + _RES + "\n"), None),
+    V("partial split the other way round: the helper submits, registers and clears, run waits and collects", FILE, RUN, _RUN_BODY,
+      _partial(head=_SUBMIT, call="        job_id = await self._submit(command_str, location, job_name, workdir, stdin, stdout, stderr, timeout)\n",
+               collect=_LOOP + _POP + "        return " + _RES + "\n", name="_submit", sig="(self, command_str, location, job_name, workdir, stdin, stdout, stderr, timeout)",
+               wait=_SUBMIT_REST + _REG + _CLEAR + "        return job_id\n"), None),
+    V("partial split, two levels: _wait_for_job registers and delegates the polling to _poll_until_gone", FILE, RUN, _RUN_BODY,
+      _partial(wait=_REG + _CLEAR + "        await self._poll_until_gone(job_id, location)\n" + _POP,
+               extra="async def _poll_until_gone(self, job_id, location):\n" + _dedent4(_LOOP) + "\n"), None),
+    V("partial split, the helper pops in a finally around the wait loop", FILE, RUN, _RUN_BODY,
+      _partial(wait=_REG + _CLEAR + "        try:\n" + _ind(_LOOP) + "        finally:\n            self._scheduled_jobs.pop(job_id, None)\n"), "R1"),
+    V("partial split, the helper clears the cache before the registration", FILE, RUN, _RUN_BODY, _partial(wait=_CLEAR + _REG + _LOOP + _POP), "R1"),
+    V("partial split, a suspension point between the submission and the helper that registers the id", FILE, RUN, _RUN_BODY,
+      _partial(call="        await asyncio.sleep(0)\n" + _WAIT_CALL), "R1"),
+    V("partial split, the helper leaves the pop to run, which pops behind the awaited result collection", FILE, RUN, _RUN_BODY,
+      _partial(wait=_REG + _CLEAR + _LOOP, collect=_COLLECT.replace("        return (output, returncode)\n", "        self._scheduled_jobs.pop(job_id)\n        return (output, returncode)\n")), "R1"),
+    V("partial split, the helper returns from inside the wait loop without testing the listing", FILE, RUN, _RUN_BODY,
+      _partial(call="        return await self._wait_for_job(job_id, location, stdout)\n", collect="", sig="(self, job_id, location, stdout)",
+               wait=(_WAIT_BODY + "        return " + _RES + "\n").replace("            if job_id not in running_jobs:\n                break\n", "            if not running_jobs:\n                return (None, 0)\n            if job_id not in running_jobs:\n                break\n")), "R1"),
+    V("partial split, the helper is also used by another method", FILE, RUN, _RUN_BODY,
+      _partial(extra="async def resume(self, job_id, location):\n    await self._wait_for_job(job_id, location)\n\n"), "R3"),
+    V("partial split, run collects the return code of another id", FILE, RUN, _RUN_BODY,
+      _partial(collect=_COLLECT.replace("await self._get_returncode(job_id, location)", "await self._get_returncode(job_name, location)")), "R4"),
+    V("partial split, the helper waits for another id than the submitted one", FILE, RUN, _RUN_BODY,
+      _partial(call="        await self._wait_for_job(job_name, location)\n"), "R4"),
+    V("partial split, run drops the return code", FILE, RUN, _RUN_BODY,
+      _partial(collect=_COLLECT.replace("return (output, returncode)", "return (output, 0)")), "R4"),
+    V("partial split, the helper receives an already unwrapped location", FILE, RUN, _RUN_BODY,
+      _partial(call="        await self._wait_for_job(job_id, get_inner_location(location))\n"), "R5"),
 ]
